@@ -188,6 +188,47 @@ def overlap_probe():
         enforced = True
     state.debug = before
     return {"results": [log.get("f"), log.get("g")], "switch_before": before, "switch_after": after, "enforced_afterwards": enforced}
+
+def same_function_overlap_probe():
+    """two asyncio tasks, then two threads, inside one @deal.has() function at the same time (A in, B in, A out, B out): once both
+    have finished the streams and the socket class are the original objects and a bystander may print"""
+    import asyncio, sys, socket
+    out = {}
+    orig = (sys.stdout, sys.stderr, socket.socket)
+    def snap(): return (sys.stdout, sys.stderr, socket.socket)
+    def put_back(): sys.stdout, sys.stderr, socket.socket = orig      # so that a failure is reported rather than killing the probe process
+    def same(a, b): return all(x is y for x, y in zip(a, b))
+    @deal.has()
+    async def work(name, entered, leave):
+        entered.set(); await leave.wait(); return name
+    async def main():
+        a_in, a_out, b_in, b_out = [asyncio.Event() for _ in range(4)]
+        before = snap()
+        ta = asyncio.ensure_future(work("A", a_in, a_out)); await a_in.wait()
+        tb = asyncio.ensure_future(work("B", b_in, b_out)); await b_in.wait()
+        a_out.set(); ra = await ta; b_out.set(); rb = await tb
+        return same(before, snap()), [ra, rb]
+    restored, results = asyncio.run(main())
+    out["tasks_restored"] = restored; out["tasks_results"] = results
+    try:
+        print("", end=""); out["tasks_bystander_prints"] = True
+    except BaseException as e:
+        out["tasks_bystander_prints"] = type(e).__name__
+    put_back()
+    a_in, a_out, b_in, b_out = [threading.Event() for _ in range(4)]
+    @deal.has()
+    def twork(entered, leave):
+        entered.set(); leave.wait(5); return 1
+    before = snap()
+    ta = threading.Thread(target=twork, args=(a_in, a_out)); tb = threading.Thread(target=twork, args=(b_in, b_out))
+    ta.start(); a_in.wait(5); tb.start(); b_in.wait(5); a_out.set(); ta.join(5); b_out.set(); tb.join(5)
+    out["threads_restored"] = same(before, snap())
+    try:
+        print("", end=""); out["threads_bystander_prints"] = True
+    except BaseException as e:
+        out["threads_bystander_prints"] = type(e).__name__
+    put_back()
+    return out
 '''
 
 
@@ -198,6 +239,12 @@ def thread_probe(ctx, fr):
     if r != 'rejected':
         fr.violations.append({'scenario': {'family': 'thread-probe'}, 'impl': r, 'signature': 'thread_debug_window',
                               'what': f'a violating call made by another thread while a validator is running was not rejected: {r}'})
+    r3 = impl.run_impl('pyexec.py', {'src': THREAD_SRC, 'calls': [['same_function_overlap_probe', []]]})[0]
+    fr.evaluations += 1; fr.samples.append({'family': 'same-function-overlap-probe', 'result': r3})
+    if not (isinstance(r3, dict) and r3.get('tasks_restored') is True and r3.get('threads_restored') is True and r3.get('tasks_bystander_prints') is True
+            and r3.get('threads_bystander_prints') is True and r3.get('tasks_results') == ['A', 'B']):
+        fr.violations.append({'scenario': {'family': 'same-function-overlap-probe'}, 'impl': r3, 'signature': None,
+                              'what': f'after two overlapping tasks / threads inside one has() function the streams are not the original ones: {r3}'})
     r2 = impl.run_impl('pyexec.py', {'src': THREAD_SRC, 'calls': [['overlap_probe', []]]})[0]
     fr.evaluations += 1; fr.samples.append({'family': 'thread-overlap-probe', 'result': r2})
     if not (isinstance(r2, dict) and r2.get('switch_after') == r2.get('switch_before') and r2.get('enforced_afterwards') and r2.get('results') == [['value', 6], ['value', 1]]):
